@@ -242,6 +242,9 @@ func main() {
 	}
 	if strings.HasSuffix(*leanOut, ".lean") {
 		writeLeaf(*leafOut, leafPkgs, f)
+		if bt := leafPkgs["bt"]; bt != nil {
+			writeValidateFilter(*leafOut, bt, f)
+		}
 	}
 	sort.Strings(f.Unavailable)
 	b, _ := json.MarshalIndent(f, "", " ")
